@@ -414,6 +414,10 @@ impl TypeContext {
         let linked = match &param_ty {
             hir::Type::Opaque(p) => p.link_lifetimes(self),
             hir::Type::Struct(p) => p.link_lifetimes(self),
+            // An optional struct/opaque uses the same type (and implies the same bounds) as the bare spelling
+            hir::Type::DiplomatOption(inner) => {
+                return self.validate_ty_in_method(errors, param, inner, method)
+            }
             _ => return,
         };
 
